@@ -59,6 +59,9 @@ class IntOnly:
 
 
 class Plain:
+    def __repr__(self):
+        return "<Plain>"
+
     def __canon__(self):
         return "Plain"
 
